@@ -150,6 +150,47 @@ def run(ctx):
                             decode(res, rec, 'field extremes')
                             res.case(rec)
                             res.count('extreme_products')
+    # (b2) couplings between fields: a decoder that treats one field specially when it *relates* to another (equal bytes,
+    # equal words, one field holding another's top byte) is invisible to single-bit walks and independent extremes
+    coupling_bases = [rng.randbytes(64) for _ in range(ctx.pick(3, 24))] + [bytes(64)]
+    n_pairs = 0
+    for base in coupling_bases:
+        for i in range(64):
+            for j in range(64):
+                if i == j:
+                    continue
+                n_pairs += 1
+                if not ctx.mine(n_pairs):
+                    continue
+                rec = bytearray(base)
+                rec[j] = rec[i] if base != bytes(64) else 0
+                if base == bytes(64):
+                    rec[i] = rec[j] = 1 + (i * 7 + j) % 255
+                rec = bytes(rec)
+                decode(res, rec, f'byte {j} made equal to byte {i}')
+                res.case(rec)
+                res.count('byte_couplings')
+        # word-level: every field's value (as it would sit in another field) copied into every other field
+        spans = [(0, 8), (8, 16), (16, 24), (24, 32), (32, 40), (40, 48), (48, 52), (52, 56), (56, 64)]
+        for (a0, a1) in spans:
+            for (b0, b1) in spans:
+                if (a0, a1) == (b0, b1):
+                    continue
+                rec = bytearray(base if base != bytes(64) else rng.randbytes(64))
+                w = min(a1 - a0, b1 - b0)
+                for variant in ('low', 'high', 'high_byte_to_low'):
+                    r2 = bytearray(rec)
+                    if variant == 'low':
+                        r2[b0:b0 + w] = rec[a0:a0 + w]
+                    elif variant == 'high':
+                        r2[b1 - w:b1] = rec[a1 - w:a1]
+                    else:
+                        r2[b0:b1] = bytes(b1 - b0)
+                        r2[b0] = rec[a1 - 1] or 1
+                        r2[a1 - 1] = r2[b0]
+                    decode(res, bytes(r2), f'field @{b0} coupled with field @{a0} ({variant})')
+                    res.case(bytes(r2))
+                    res.count('word_couplings')
     # (c) random records
     for i in range(ctx.pick(100000, 5000000 // ctx.nshards)):
         rec = rng.randbytes(64)
@@ -165,6 +206,7 @@ def run(ctx):
     res.assumptions += ['reference decode = int.from_bytes on literal slices (vlib/wire.py)',
                         '2^512 inputs are sampled with structure, not enumerated']
     res.require('bit_flips', 512)
+    res.require('byte_couplings', 1000)
     res.require('contract_evaluations', 1)
     return res
 
